@@ -206,8 +206,62 @@ def probe_worker(arg):
     return rec
 
 
+def compiled_worker(arg):
+    """the interpreter keeps every non-eqrel relation in a B-tree, so brie is only real in generated code: the program as written and
+    the same program with every relation re-qualified brie (or a random btree/brie mix) are compiled and run; outputs must agree"""
+    seed, souffle = arg
+    from . import compiled
+    from gen import progen
+    rng = random.Random(seed)
+    prog = progen.generate(seed, cfg_fn(rng))
+    text = dl.fmt_program(prog)
+    rec = dict(seed=seed, hash=runner.prog_hash(text), features=sorted(prog.features) + ["compiled"], counts={})
+    d = runner.case_dir("C08", seed)
+    rec["dir"] = d
+    runner.write_case(d, prog, text=text)
+    cand = [r.name for r in prog.rels if "eqrel" not in r.quals and len(r.attrs) >= 1]
+    qmap = {n: ("brie" if (seed % 2 == 0 or rng.random() < 0.6) else "btree") for n in cand}
+    with open(os.path.join(d, "q.dl"), "w") as f:
+        f.write(requalify(text, qmap))
+    outs = {}
+    for name, pfile in (("plain", "p.dl"), ("requalified", "q.dl")):
+        r, ck = compiled.build_exe(souffle, d, prog=pfile, exe="exe_" + name)
+        if ck is not None or r.rc != 0:
+            if name == "plain":
+                rec.update(status="skip", reason="compile-failed (C02)")
+                return rec
+            rec.update(status="viol", viols=[("requalify-compiled:build-failed", "the re-qualified program does not build (%s)\n%s\n%s" % (ck or r.rc, r.err[-1500:], requalify(text, qmap)))], program=text)
+            return rec
+        rr, ck = compiled.run_exe(d, exe="exe_" + name, outdir="c_" + name)
+        if ck is not None or rr.rc != 0:
+            if name == "plain":
+                rec.update(status="skip", reason="compiled-baseline-failed (C02)")
+                return rec
+            rec.update(status="viol", viols=[("requalify-compiled:crash:%s" % (ck or rr.rc), "the re-qualified executable died\n%s\n%s" % (rr.err[-1500:], requalify(text, qmap)))], program=text)
+            return rec
+        o, problems = runner.read_outputs(d, prog, outdir="c_" + name)
+        if problems:
+            if name == "plain":
+                rec.update(status="skip", reason="baseline-output-unreadable")
+                return rec
+            rec.update(status="viol", viols=[("requalify-compiled:output:" + problems[0].split(" ")[0], problems[0] + "\n" + requalify(text, qmap))], program=text)
+            return rec
+        outs[name] = o
+    rec["counts"]["compiles"] = 2
+    diffs = runner.diff_outputs(prog, outs["requalified"], outs["plain"], ("re-qualified", "as written"))
+    rec["nontrivial"] = any(len(v) for k, v in outs["plain"].items() if not k.startswith("e"))
+    if diffs:
+        rec.update(status="viol", viols=[("requalify-compiled:wrong-result", "compiled outputs change with the representation (%s):\n  %s\n%s" % (
+            " ".join("%s:%s" % kv for kv in sorted(qmap.items())), "\n  ".join(diffs), text))], program=text)
+    else:
+        rec.update(status="ok", sample=None)
+    return rec
+
+
 def any_worker(arg):
     kind, seed, souffle = arg
+    if kind == "compiled":
+        return compiled_worker((seed, souffle))
     return probe_worker((seed, souffle)) if kind == "probe" else worker((seed, souffle))
 
 
@@ -219,9 +273,11 @@ def check(tier, seed):
     res = Result("exploration")
     res.rule = RULE
     base = seed * 1000000 + (0 if tier == "quick" else 50000) + 800000
-    jobs = [("diff", base + i, t["plain"]) for i in range(n)] + [("diff", base + n + i, t["san"]) for i in range(nsan)]
+    ncomp = 4 if tier == "quick" else 48
+    jobs = [("compiled", base + 900000 + i, t["plain"]) for i in range(ncomp)]
+    jobs += [("diff", base + i, t["plain"]) for i in range(n)] + [("diff", base + n + i, t["san"]) for i in range(nsan)]
     jobs += [("probe", base + 20000 + i, t["plain"]) for i in range(nprobe)] + [("probe", base + 20000 + nprobe + i, t["san"]) for i in range(nsan * 2)]
     recs = runner.pmap(any_worker, jobs)
     dc.finish("C08", recs, res, n)
-    res.assumptions = ["interpreter only", "programs are samples of the generator's distribution; eqrel probes follow a fixed template with random pairs"]
+    res.assumptions = ["interpreter (where brie and btree are the same B-tree) plus a compile-bound sample in which brie is real (4 quick / 48 thorough)", "programs are samples of the generator's distribution; eqrel probes follow a fixed template with random pairs"]
     return res
